@@ -3,9 +3,9 @@ from __future__ import annotations
 
 import ast as _ast
 
-from ..common import nshow
+from ..common import OPAQUE, nshow
 from ..effects import Effects
-from ..expr import C, canon, first_diff, norm, show, strip_epochs, walk
+from ..expr import C, canon, first_diff, mapx, norm, rowform, show, strip_epochs, walk
 from ..model import AnalysisError
 from ..walk import Walker
 
@@ -25,8 +25,26 @@ ALLOWED_CALLS = {"md5", "sha256", "digest", "unpack", "ord", "list", "map", "ran
                  "fnv_1a", "default_md5", "default_sha256", "wraps"}
 
 
+def _walker(prog):
+    """helpers that are not functions of the pinned tree are inlined (see anchors.py)"""
+    return Walker(prog, None, inline="deep", opaque=OPAQUE)
+
+
+def resolve_phi(v, atom, truth):
+    """v with every conditional expression on `atom` decided"""
+    def f(n):
+        if n[0] == "phi":
+            c = strip_epochs(n[1])
+            if c == atom:
+                return n[2] if truth else n[3]
+            if c == ("un", "not", atom):
+                return n[3] if truth else n[2]
+        return None
+    return mapx(v, f)
+
+
 def runs(prog):
-    w = Walker(prog, None)
+    w = _walker(prog)
     out = {}
     for n in ("fnv_1a", "fnv_1a_32", "default_fnv_1a"):
         f = prog.function(n)
@@ -47,35 +65,44 @@ def runs(prog):
 
 def kernel_rules(prog, rep, rid_prefix="C18"):
     """FNV-1a constants and kernel; shared with C06"""
-    w = Walker(prog, None)
+    w = _walker(prog)
     for name, (basis, prime, mod) in FNV.items():
         f = prog.function(name)
         ps = w.run(f)
         rep.analysed(f, None, len(ps))
         seed, key = ("p", "seed"), ("p", "key")
-        init = norm(("bin", "&", ("bin", "+", C(basis), ("bin", "*", C(31), seed)), C(mod - 1)))
+        init = canon(norm(("bin", "&", ("bin", "+", C(basis), ("bin", "*", C(31), seed)), C(mod - 1))))
+        isstr_atom = ("call", ("g", "isinstance"), (key, ("g", "str")), ())
         good = True
         for p in ps:
             if p.exit[0] != "return":
                 continue
-            binds = [e for e in p.events if e.kind == "bind" and e.name not in ("t_str",)]
-            hv0 = [e for e in binds if not e.loops and first_diff(canon(init), canon(e.value)) is None]
-            if not hv0:
+            rv = strip_epochs(p.exit[1])
+            if rv[0] != "hv":
+                # no round ran: the result must be the seeded offset basis
+                if first_diff(init, canon(rv)) is not None:
+                    looped = any(e.loops for e in p.events)
+                    rep.bad(f"{rid_prefix}.fnv-kernel", name, f"returns {nshow(rv)}",
+                            "the function does not return the accumulator" if looped else
+                            f"an empty key does not hash to the seeded offset basis ({hex(basis)} + 31*seed) mod 2^{mod.bit_length() - 1}", f.where())
+                    good = False
+                    break
+                continue
+            acc, lid = rv[1], rv[2].rstrip("+")
+            li = [e for e in p.events if e.kind == "loopinit" and e.name == acc and e.lid == lid]
+            if not li or first_diff(init, canon(li[0].value)) is not None:
                 rep.bad(f"{rid_prefix}.fnv-kernel", name, "offset basis",
-                        f"the accumulator does not start at ({hex(basis)} + 31*seed) mod 2^{mod.bit_length() - 1}", f.where())
+                        f"the accumulator does not start at ({hex(basis)} + 31*seed) mod 2^{mod.bit_length() - 1}", (li[0].where() if li else f.where()))
                 good = False
                 break
-            acc = hv0[0].name
-            rv = strip_epochs(p.exit[1])
-            inl = [e for e in binds if e.loops and e.name == acc]
+            inl = [e for e in p.events if e.kind == "bind" and e.loops and e.loops[-1] == lid and e.name == acc]
             if not inl:
-                if first_diff(canon(init), canon(rv)) is not None:
-                    rep.bad(f"{rid_prefix}.fnv-kernel", name, f"returns {nshow(rv)}", "an empty key does not hash to the seeded offset basis", f.where())
-                    good = False
-                continue
+                rep.bad(f"{rid_prefix}.fnv-kernel", name, "no round", "the loop body does not update the accumulator", f.where())
+                good = False
+                break
             last = inl[-1].value
-            hvv = ("hv", acc, inl[-1].loops[-1])
-            elem = [n for n in walk(last) if n[0] == "it"]
+            hvv = ("hv", acc, lid)
+            elem = [n for n in walk(last) if n[0] == "it" and n[1] == lid]
             if not elem:
                 rep.bad(f"{rid_prefix}.fnv-kernel", name, "no byte consumed", "the loop body does not mix in the next byte", inl[-1].where())
                 good = False
@@ -87,19 +114,15 @@ def kernel_rules(prog, rep, rid_prefix="C18"):
                         f"one round computes {nshow(last)}; FNV-1a is ((h ^ byte) * {hex(prime)}) mod 2^{mod.bit_length() - 1} ({d[1]} differs)", inl[-1].where())
                 good = False
                 break
-            if rv[0] != "hv" or rv[1] != acc:
-                rep.bad(f"{rid_prefix}.fnv-kernel", name, f"returns {nshow(rv)}", "the function does not return the accumulator", f.where())
-                good = False
-                break
-            # bytes: str -> ord per character, bytes -> list(key)
-            dom = strip_epochs(elem[0][2])
-            wantdom = ("phi", ("un", "not", ("call", ("g", "isinstance"), (key, ("g", "str")), ())),
-                       ("call", ("g", "list"), (key,), ()),
-                       ("call", ("g", "list"), (("call", ("g", "map"), (("g", "ord"), key), ()),), ()))
-            isstr = [c for c in p.conds if strip_epochs(c.atom) == ("call", ("g", "isinstance"), (key, ("g", "str")), ())]
-            stmt_form = isstr and ((isstr[0].truth and canon(dom) == canon(wantdom[3])) or (not isstr[0].truth and canon(dom) == canon(wantdom[2])))
-            if canon(dom) != canon(wantdom) and not stmt_form:
-                rep.bad(f"{rid_prefix}.text-keys", name, f"iterates {nshow(dom)}", "the key is not consumed as its bytes / code points (list(key) for bytes, map(ord, key) for str)", f.where())
+            # bytes: str -> code point per character, bytes -> the byte values
+            el = strip_epochs(rowform(elem[0]))
+            e_bytes = ("it", lid, key)
+            e_str = ("call", ("g", "ord"), (e_bytes,), ())
+            isstr = [c for c in p.conds if strip_epochs(c.atom) == isstr_atom]
+            cases = [(isstr[0].truth,)] if isstr else [(True,), (False,)]
+            okdom = all(resolve_phi(el, isstr_atom, t) == (e_str if t else e_bytes) for (t,) in cases)
+            if not okdom:
+                rep.bad(f"{rid_prefix}.text-keys", name, f"consumes {nshow(el)}", "the key is not consumed as its bytes / code points (each byte of a bytes key, ord() of each character of a str key)", f.where())
                 good = False
                 break
         if good:
@@ -149,10 +172,12 @@ def check(prog, rep, tier):
         for p in ps:
             for e in p.events:
                 if e.kind == "call":
+                    if e.d.get("inlined"):
+                        continue
                     calls.add(e.name)
-                    if e.name == "append" and (e.recv is None or e.recv[0] != "newb"):
+                    if e.name == "append" and (e.recv is None or e.recv[0] not in ("newb", "lst")):
                         bad = (e, "appends to something other than its fresh result list")
-                    if e.d.get("mutates") and e.recv is not None and e.recv[0] != "newb" and e.name != "append":
+                    if e.d.get("mutates") and e.recv is not None and e.recv[0] not in ("newb", "lst") and e.name != "append":
                         bad = (e, f"calls mutating {e.name}() on {nshow(e.recv)}")
                 elif e.kind in ("setfield", "setelem"):
                     r = e.d.get("base", e.d.get("cont"))
@@ -186,12 +211,12 @@ def check(prog, rep, tier):
                     good = False
                     break
                 continue
-            if res[0] != "newb" or res[1] != "list":
+            if not ((res[0] == "newb" and res[1] == "list") or res[0] == "lst"):
                 rep.bad("C18.exactly-depth", name, f"returns {nshow(res)}", "the strategy does not return its freshly built list", f.where())
                 good = False
                 break
             apps = [e for e in p.events if e.kind == "call" and e.name == "append" and e.recv == res]
-            pre = [e for e in apps if not e.loops]
+            pre = [e for e in apps if not e.loops] + (list(res[1]) if res[0] == "lst" else [])
             inl = [e for e in apps if e.loops]
             loop0 = [c for c in p.conds if c.atom[0] == "loop0"]
             doms = {strip_epochs(c.atom[2]) for c in loop0}
